@@ -132,8 +132,13 @@ func c01Workload(ctx *lib.Ctx, nSkel, total int) {
 			w, root := (*lib.World)(nil), lib.F(nil)
 			if sweep {
 				// 28 siblings: the 25 names of the translator's list and the numbered ones after them
-				w, root = lib.NewSiblingWorld(r, spec.Base, 28, i-sweepFrom, sweepKinds)
-				ctx.Count("sibling_sweep_profiles_28_quantified_siblings", 1)
+				// and, for every sixth offset, 60 siblings (beyond every name list) as the operands of one `or`
+				nSib, disj := 28, (i-sweepFrom)%2 == 1
+				if (i-sweepFrom)%6 == 0 {
+					nSib, disj = 60, true
+				}
+				w, root = lib.NewSiblingWorld(r, spec.Base, nSib, i-sweepFrom, sweepKinds, disj)
+				ctx.Count(fmt.Sprintf("sibling_sweep_profiles_%d_quantified_siblings_disjunction_%v", nSib, disj), 1)
 			} else {
 				w, root = lib.NewWorld(r, spec)
 			}
